@@ -153,7 +153,23 @@ def check(case):
     elif rejected:
         return r.fail("rejected-without-scaling", "with_std=False must not reject")
     scale = float(np.abs(X).max()) or 1.0
-    T = np.asarray(scaler.transform(X.copy()), float)
+    Xc = X.copy()
+    T = np.array(scaler.transform(Xc), float)
+    if not np.array_equal(Xc, X):
+        return r.fail("transform-modifies-the-callers-array", "flags mean=%s std=%s column_wise=%s" % (wm, ws, cw))
+    T_again = np.asarray(scaler.transform(Xc), float)
+    if not np.array_equal(T_again, T):
+        return r.fail("second-transform-differs-from-the-first", "max diff %.3g" % np.abs(T_again - T).max())
+    if w is not None:
+        # weights are normalised internally: the same weights at a tiny overall scale give the same scaler
+        s_tiny = StandardFlexibleScaler(with_mean=wm, with_std=ws, column_wise=cw, rtol=rtol, atol=atol)
+        try:
+            s_tiny.fit(X.copy(), sample_weight=np.array(w, float) * 1e-9)
+            Tt = np.asarray(s_tiny.transform(X.copy()), float)
+            if np.abs(Tt - T).max() > 1e-8 * max(1.0, np.abs(T).max()):
+                return r.fail("weights-not-scale-free", "weights * 1e-9 change the transformed data by %.3g" % np.abs(Tt - T).max())
+        except ValueError:
+            return r.fail("weights-not-scale-free", "weights * 1e-9 are rejected")
     # ---- weighted moments of the transformed training data
     _, tmean, tvar = _wstats(T, w)
     sd_min = np.sqrt(var.min()) if cw else np.sqrt(var.sum())
